@@ -137,6 +137,34 @@ def retjump_soup(rng, n):
     return prog
 
 
+def fwdjump_family(rng):
+    """a loop whose second pass takes a conditional jump FORWARD to a label registered further down on the
+    first pass (jumps may lead to any command already seen, not only backwards)"""
+    hk, hj = rng.sample([2, 4, 5, 7, 9], 2)
+    letters = iter(range(65, 91))
+    def prints():
+        out = []
+        for _ in range(rng.randint(1, 3)):
+            out += [C(0, next(letters, 90), 1), C(1, 1, 1)]
+        return out
+    def cond(heart):
+        # returns (area, value that takes the heart, value that falls through)
+        if rng.random() < 0.5:
+            return [63] + H(heart) + NIL, 0, 5
+        return [33] + H(heart) + NIL, 3, 5
+    aj, take_j, skip_j = cond(hj)
+    ab, take_b, skip_b = cond(hk)
+    # values are popped top first: pass 1 skips the forward jump and takes the back jump,
+    # pass 2 takes the forward jump and leaves the loop
+    order = [skip_j, take_b, take_j, skip_b] + [rng.choice([0, 3, 5]) for _ in range(rng.randint(0, 2))]
+    prog = [C(0, 1, v) if v else C(0, 1, 0) for v in reversed(order)]
+    prog += [C(1, 1, 3, H(hk))] + prints() + [C(1, 1, 3, aj)] + prints() + prints() + [C(1, 1, 3, H(hj))] + prints()
+    prog += [C(1, 1, 3, ab)] + prints()
+    if rng.random() < 0.4:
+        prog += [C(1, 1, 3, [63] + H(13) + NIL)] + prints()
+    return prog
+
+
 def mutate(rng, prog):
     p = [dict(c) for c in prog]
     i = rng.randrange(len(p))
@@ -202,8 +230,10 @@ def gen_cases(rng, n, flavor="mixed"):
             p = one_to_n(rng.choice([2, 4, 6, 10, 20, 50, 96, 104, 200]))
         elif r < 0.89:
             p = rand_soup(rng, rng.randint(1, 4)) + infinite_a() + rand_soup(rng, rng.randint(0, 3))
-        elif r < 0.94:
+        elif r < 0.92:
             p = retjump_soup(rng, rng.randint(5, 12))
+        elif r < 0.95:
+            p = fwdjump_family(rng)
         else:
             p = CAT_LOOP if rng.random() < 0.5 else cat_n(rng.randint(1, 6))
             if rng.random() < 0.3:
